@@ -518,6 +518,14 @@ evaluates the expression in the module's final scope (`K = A; def f(x: K): ...; 
 def D13_reboundName (env : NameEnv) (d : DefArgs) : Bool :=
   !d.future && !d.annAll (stableNames env)
 
+/-- **D13.asyncGenInferred**: an `async def` with `yield` (an async generator) without a return
+annotation. The two *signatures* agree (`Any[unannotated]`, not wrapped), but the return value
+pyanalyze infers from the body for later calls in the defining module
+(`NameCheckVisitor._set_argspec_to_retval`, name_check_visitor.py:2180, outside this model) is wrapped
+in `Coroutine[...]` for every `AsyncFunctionDef`, generator or not: a call is `Coroutine` +
+`missing_await` next to the def and `Any` from an importing module. -/
+def D13_asyncGenInferred (d : DefArgs) : Bool := d.kind == .asyncGen && d.returns.isNone
+
 def isUnpackTop : AnnExpr → Bool
   | .unpack _ => true
   | .str e => isUnpackTop e
@@ -542,5 +550,18 @@ def registeredCaches : List (String × String × String × String) := [
   ("pyanalyze/arg_spec.py", "ArgSpecCache.generic_bases_cache", "dict", "typ"),
   ("pyanalyze/arg_spec.py", "ArgSpecCache.known_argspecs", "dict", "obj"),
   ("pyanalyze/annotations.py", "Context._being_evaluated", "set", "")]
+
+/-- Where the two signature routes assign the return type, as the model follows it
+(`Core/Annot.lean : fromDefWith`, `fromInspect`): in `from_signature` the coroutine wrapper is applied
+under `is_async` alone — for an annotated and for an unannotated function alike —, in
+`compute_value_of_function` under "async def without yield". Compared with the regenerated
+`Generated/ArgSpecCaches.lean : returnBranches` by `Props/C13.lean : return_branches_registered`. -/
+def registeredReturnBranches : List (String × String × String) := [
+  ("from_signature", "(not (returns is not None)) and (is_wrapped or sig.return_annotation is inspect.Signature.empty)", "AnyValue"),
+  ("from_signature", "(not (returns is not None)) and (not (is_wrapped or sig.return_annotation is inspect.Signature.empty))", "type_from_runtime"),
+  ("from_signature", "(not (returns is not None)) and (is_async)", "make_coro_type"),
+  ("compute_value_of_function", "(result is None)", "Attribute"),
+  ("compute_value_of_function", "(result is None)", "AnyValue"),
+  ("compute_value_of_function", "(isinstance(info.node, ast.AsyncFunctionDef)) and (not visitor.is_generator)", "make_coro_type")]
 
 end Pya.C13
